@@ -12,7 +12,7 @@ from .dep import Dep
 from .model import AnchorMissing, Func, Inconclusive, Repo, norm
 
 VERIF_DIR = os.path.dirname(os.path.dirname(os.path.abspath(__file__)))
-EVIDENCE_DIR = os.path.join(VERIF_DIR, "evidence")
+EVIDENCE_DIR = os.environ.get("SPVERIF_EVIDENCE_DIR") or os.path.join(VERIF_DIR, "evidence")
 KNOWN_FILE = os.path.join(VERIF_DIR, "known_findings.json")
 
 TRUSTED_BASE = ["CPython 3.12 ast/compile front end", "spverif engine (model, CFG, dominators, DEP, order tables)",
@@ -117,6 +117,8 @@ def run_property(prop: str, tier: str, rules_fn, meta: dict) -> int:
     seed = int(os.environ.get("VERIF_SEED", "0") or 0)
     os.makedirs(EVIDENCE_DIR, exist_ok=True)
     ev_path = os.path.join(EVIDENCE_DIR, f"{prop}.json")
+    ctx = None
+    problem = None
     try:
         ctx = Ctx(prop, tier)
         rules_fn(ctx)
@@ -126,16 +128,24 @@ def run_property(prop: str, tier: str, rules_fn, meta: dict) -> int:
                 raise AnchorMissing(f"rule {rule} matched {got} instance(s), floor is {n}: an anchor moved; "
                                     f"the rule would pass vacuously")
     except AnchorMissing as e:
-        print(f"ANALYSIS-ERROR property={prop} anchor: {e}")
-        return 2
+        problem = f"ANALYSIS-ERROR property={prop} anchor: {e}"
     except Inconclusive as e:
-        print(f"INCONCLUSIVE property={prop} {e}")
-        return 2
+        problem = f"INCONCLUSIVE property={prop} {e}"
     except Exception as e:  # internal error: never a verdict
         import traceback
         traceback.print_exc()
         print(f"ANALYSIS-ERROR property={prop} internal: {type(e).__name__}: {e}")
         return 2
+    if problem is not None:
+        # An incomplete analysis is not a verdict -- unless rule instances evaluated before the analysis stopped
+        # already failed: those are reported (they are sound on their own), together with the note.
+        known_open_keys = {k["key"] for k in load_known() if k.get("property") == prop and k.get("status") == "known"}
+        early = [o for o in (ctx.obs if ctx is not None else []) if not o.info and o.holds is False and o.key not in known_open_keys]
+        if not early:
+            print(problem)
+            return 2
+        ctx.note(problem + " (analysis incomplete; the violations below were established before it stopped)")
+        print(problem + " -- reporting the violations established before the analysis stopped")
 
     known = [k for k in load_known() if k.get("property") == prop]
     known_open = {k["key"]: k for k in known if k.get("status") == "known"}
